@@ -197,6 +197,11 @@ func body(c *runner.Ctx, faults bool) {
 		c.Describe("fault plan: %v", w.fail)
 	}
 	finished := 0
+	// one Executor for every query, as an HTTP handler, a websocket connection
+	// and a federation server have: overlapping Execute calls on it must not
+	// know of each other
+	shared := graphql.NewExecutor(graphql.NewImmediateGoroutineScheduler())
+	useShared := c.Choose(3, "shared-executor") == 1
 	for _, ex := range execs {
 		ex := ex
 		go func() {
@@ -227,6 +232,11 @@ func body(c *runner.Ctx, faults bool) {
 				sched = &waveScheduler{3}
 			}
 			simrt.Logf("exec %d start", ex.idx)
+			executor := graphql.NewExecutor(sched)
+			if useShared && ex.sched == "immediate" {
+				c.Probe("execute-on-shared-executor")
+				executor = shared
+			}
 			if ex.rerunner {
 				c.Probe("execution-inside-rerunner")
 				ran := make(chan struct{})
@@ -243,13 +253,13 @@ func body(c *runner.Ctx, faults bool) {
 						ctx, cancel = context.WithTimeout(ctx, ex.deadline)
 						defer cancel()
 					}
-					ex.val, ex.err = graphql.NewExecutor(sched).Execute(ctx, schema.Query, nil, q)
+					ex.val, ex.err = executor.Execute(ctx, schema.Query, nil, q)
 					return nil, errors.New("one-shot")
 				}, graphql.DefaultMinRerunInterval, false)
 				<-ran
 				rr.Stop()
 			} else {
-				ex.val, ex.err = graphql.NewExecutor(sched).Execute(ctx, schema.Query, nil, q)
+				ex.val, ex.err = executor.Execute(ctx, schema.Query, nil, q)
 			}
 			ex.done = true
 			simrt.Logf("exec %d end err=%s", ex.idx, errLine(ex.err))
